@@ -94,7 +94,7 @@ PROPS = {
                 theorems=reg("Voi.Props.C14", "Voi.Props.C14.Expand", "Voi.Props.C14.HashWF", "Voi.Props.C14.U2F", "Voi.Props.C14.Elligator", "Voi.Props.C14.Consts")),
     "C15": dict(level="proof", gens=["go2ir"], streams=[("E1", 2000), ("E2", 1500)], configs_quick=Q4, configs_thorough=T4,
                 theorems=reg("Voi.Props.C15", "Voi.Props.L0.Pred_ScMinimalVartime", "Voi.Props.ScMinimal", "Voi.Props.PredBridgeSc")),
-    "C16": dict(level="proof", streams=[("L1", 3000)], configs_quick=Q4, configs_thorough=T4,
+    "C16": dict(level="proof", streams=[("L1", 3000), ("G1", 600)],  # G1: both triple-base entry points (plain and precomputed key) configs_quick=Q4, configs_thorough=T4,
                 theorems={"Voi.Props.LatticeInv": LAT_INV, "Voi.Props.LatticeRefine": LAT_REF, **reg("Voi.Props.LatticeFuel")}),
     "C18": dict(level="proof", streams=[("C2", 3000), ("C1", 800),
                                         # the stateless API workload executed from 16 goroutines sharing all package-level state;
@@ -111,7 +111,9 @@ PROPS = {
                 theorems={"Voi.Props.LRUInv": LRU_THMS, "Voi.Props.LinearizeSound": LIN_THMS}),
     "C17": dict(level="proof", streams=[("R1", 8000)], configs_quick=["default", "force32bit"], configs_thorough=T4, theorems={"Voi.Props.C17": C17_THMS}),
 }
-PROPS["C19"] = dict(level="proof", streams=[("P1", 26000), ("M1", 2000)], configs_quick=Q4, configs_thorough=T4, thorough_mult=1,
+PROPS["C19"] = dict(level="proof", streams=[("P1", 26000), ("M1", 2000),
+                                                # the per-protocol streams carry their own malformed/boundary inputs (a panic is a reply the model never gives)
+                                                ("E1", 600), ("V1", 800), ("D1", 800), ("T1", 600), ("Q1", 600), ("H1", 500), ("X1", 600), ("B1", 300)], configs_quick=Q4, configs_thorough=T4, thorough_mult=1,
                     theorems={"Voi.Props.TotalInv": TOTAL_THMS})
 PROPS["C08"] = dict(level="other", gens=["go2ir", "ct"], custom="ct", streams=[("T0", 3000)], configs_quick=["purego", "force32bit"], configs_thorough=T4,
                     theorems={"Voi.Props.C08": ["Voi.Props.C08.ir_leak_const", "Voi.Props.C08.run_steps_const", "Voi.Props.C08.ct_table_ok", "Voi.Props.C08.ct_table_size"]},
